@@ -65,6 +65,20 @@ PROPS = {
         'trusted_base': ['PipeIn model (coq/theories/PipeIn/Model.v): hand-written, the object abstracted as one-at-a-time FIFO execution (justified by C01/C02), tied by translator facts and the run-time oracles'],
         'assumptions': ['the Desync object is abstracted as ObjExec (exclusive FIFO execution); a processing future that suspends is one step'],
     },
+    'C12': {
+        'coq': ['theories/Pipe/PropsC12.vo', 'theories/Inst/C12_now.vo'],
+        'profiles': [prof('pipe', (80, 20), (1500, 60), extra=['--max-steps', '30000'])],
+        'monitors': ['C12', 'C01', 'C05'], 'liveness': True, 'panics': True,
+        'trusted_base': ['Pipe model (coq/theories/Pipe/Model.v): hand-written, the object abstracted as one-at-a-time FIFO execution (justified by C01/C02), tied by translator facts and the run-time oracles'],
+        'assumptions': ['the Desync object is abstracted as ObjExec; the processing future is one step; depth 0 is excluded (it wedges the pipe by design of the code: nothing is read while pending.len() >= 0)'],
+    },
+    'C16': {
+        'coq': ['theories/Pipe/PropsC16.vo', 'theories/Inst/C16_now.vo'],
+        'profiles': [prof('pipedrop', (80, 25), (1500, 80), extra=['--max-steps', '30000'])],
+        'monitors': ['C16', 'C12', 'C05'], 'liveness': True, 'panics': True,
+        'trusted_base': ['Pipe model (coq/theories/Pipe/Model.v), see C12'],
+        'assumptions': ['"released" = poll_fn is None OR nothing references the PipeContext any more (with the drop landing on a throttled producer the input stream and closure are freed by reference counting, never by poll_fn := None; the literal reading is refuted in PropsC16.v)'],
+    },
     'C14': {
         'correspondence': CORR_L1,
         'coq': ['theories/Props/C14.vo', 'theories/Inst/C14_now.vo'],
